@@ -124,7 +124,16 @@ TARGETS = [  # (kind, --config value as a function of the scratch dir, path of t
     ("absolute", lambda w: str(w / "abs.yml"), "abs.yml"),
     ("absolute-nested", lambda w: str(w / "deep" / "er" / ".mockery.yml"), "deep/er/.mockery.yml"),
     ("odd-name", lambda w: "- weird: name #.yml", "- weird: name #.yml"),
+    # file names whose extension suggests another format: the file init writes there is YAML and must load back
+    ("ext-json", lambda w: "mockery.json", "mockery.json"),
+    ("ext-JSON", lambda w: "cfg.JSON", "cfg.JSON"),
+    ("ext-toml", lambda w: "x.toml", "x.toml"),
+    ("ext-yaml.json", lambda w: "./x.yaml.json", "x.yaml.json"),
+    ("ext-txt", lambda w: str(w / "x.txt"), "x.txt"),
+    ("no-extension", lambda w: "mockeryconfig", "mockeryconfig"),
+    ("nested-json", lambda w: "sub/dir/conf.json", "sub/dir/conf.json"),
 ]
+MODULE_CONFIGS = ["conf/mockery.yml", "conf/mockery.json", "conf/cfg.JSON", "conf/x.toml", "conf/x.yaml.json", "conf/x.txt", "conf/mockeryconfig", "mockery.json"]
 
 
 LOAD_VARS = {"repo": "surprise", "x": "1", "VAR": "expanded"}      # set while the written file is loaded back
@@ -361,13 +370,14 @@ def module_case(ctx, k, rng):
         body = "\n".join(decls)
         imp = 'import "io"\n\n' if "io.Closer" in body else ""
         (d / sub / fn).write_text("package %s\n\n%s%s\ntype notAnInterface%s struct{}\n" % (pkgname, imp, body, fn[0]))
-    custom = rng.random() < 0.4
-    flag = ["--config", "conf/mockery.yml"] if custom else []
+    custom = rng.random() < 0.6
+    cfgname = rng.choice(MODULE_CONFIGS)
+    flag = ["--config", cfgname] if custom else []
     if custom:
         (d / "conf").mkdir()
     env = go_env({"GOFLAGS": "-mod=mod"})
     env = {k_: v for k_, v in env.items() if not k_.startswith("MOCKERY_")}
-    desc = {"module": mod, "package": pkgpath, "interfaces": sorted(names), "config": "conf/mockery.yml" if custom else ".mockery.yml (default)"}
+    desc = {"module": mod, "package": pkgpath, "interfaces": sorted(names), "config": cfgname if custom else ".mockery.yml (default)"}
     ienv = dict(env)
     if k % 2 == 1:       # every other module: init is run from a shell with MOCKERY_* set, the later plain run from a clean one
         shell = draw_env(rng, with_config=False)
@@ -442,6 +452,8 @@ CORPUS = [  # (state, target index, package path)
     ("Absent", 0, b"example.com/$repo/api"), ("Absent", 1, b"example.com/${x}/api"), ("Absent", 3, b"a/$1/b"), ("Absent", 4, b"a/$$/b"),
     ("Absent", 0, b"$HOME/x"), ("Absent", 2, b"a/${}/b"), ("Absent", 5, b"a/$"), ("Absent", 1, b"a/%VAR%/b"), ("Absent", 0, b"~"), ("Absent", 6, b"a/`id`/b"),
     ("Absent", 1, b"example.com/$nosuch/api"), ("Absent", 0, b"${NOSUCH_C18}"), ("Absent", 3, b"$repo$x"),
+    ("Absent", 7, b"github.com/org/repo"), ("Absent", 8, b"github.com/org/repo"), ("Absent", 9, b"github.com/org/repo"), ("Absent", 10, b"a: b"),
+    ("Absent", 11, b"github.com/org/repo"), ("Absent", 12, b"github.com/org/repo"), ("Absent", 13, b"x/y"), ("IsFile", 7, b"x"), ("IsDanglingIntoDir", 13, b"x"),
     ("Absent", 1, b""), ("Absent", 1, b"<<x"), ("Absent", 1, b"\xff\xfe"), ("Absent", 1, b"a\nb"), ("Absent", 2, "日本語/✓ ".encode()),
 ]
 
